@@ -90,6 +90,15 @@ func profileName(profile profile.Profile) string {
 	return fmt.Sprintf("report[\"profile\"] = %s", regoString(profile.Name))
 }
 
+// regoStringList renders the values as comma separated Rego string literals
+func regoStringList(values []string) string {
+	quoted := make([]string, len(values))
+	for i, v := range values {
+		quoted[i] = regoString(v)
+	}
+	return strings.Join(quoted, ",")
+}
+
 // regoString renders s as a Rego string literal (JSON syntax), quotes included
 func regoString(s string) string {
 	var b bytes.Buffer
